@@ -1,8 +1,102 @@
 import Flatland.JsonUtil
-open Lean Flatland.J
+import Flatland.C03
+open Lean
+open Flatland.J hiding Str
 namespace Flatland.Run.C03
+open Flatland.C03
 
-/-- JSON case in, JSON observation out (stub until the model of C03 is written). -/
-def run (_j : Json) : Except String Json := .error "model runner for C03 not implemented yet"
+def optStr (j : Json) : Except String (Option Str) := optOf chars j
+
+/-- natives as tagged JSON: null | {"s":text} | {"a":atom tag} | [..] | {"d":[[k,v]..]} |
+    {"pairs":[[k,v]..]} | {"junk":1} -/
+partial def parseNative (j : Json) : Except String Native := do
+  if isNull j then return .none
+  if let .ok l := j.getArr? then return .list (← l.toList.mapM parseNative)
+  if let .ok s := fld j "s" then return .text (← chars s)
+  if let .ok a := fld j "a" then return .atom (← chars a)
+  if let .ok d := fld j "d" then
+    return .dict (← (← arr d).mapM (fun p => do
+      match (← arr p) with
+      | [k, v] => return ((← chars k), (← parseNative v))
+      | _ => throw "bad dict pair"))
+  if let .ok d := fld j "pairs" then
+    return .pairs (← (← arr d).mapM (fun p => do
+      match (← arr p) with
+      | [k, v] => return ((← chars k), (← parseNative v))
+      | _ => throw "bad pair"))
+  if let .ok _ := fld j "junk" then return .junk
+  throw s!"bad native {j.compress}"
+
+partial def nativeJson : Native → Json
+  | .none => Json.null
+  | .atom t => obj [("a", ofChars t)]
+  | .text s => obj [("s", ofChars s)]
+  | .list xs => ofList nativeJson xs
+  | .dict kvs => obj [("d", ofList (fun (p : Str × Native) => Json.arr #[ofChars p.1, nativeJson p.2]) kvs)]
+  | .pairs kvs => obj [("pairs", ofList (fun (p : Str × Native) => Json.arr #[ofChars p.1, nativeJson p.2]) kvs)]
+  | .junk => obj [("junk", ofNat 1)]
+
+partial def parseSchema (j : Json) : Except String Schema := do
+  let t ← sfld j "t"
+  let name ← optStr (← fld j "name")
+  let opt := (bool (fldD j "opt" (Json.bool false))).toOption.getD false
+  match t with
+  | "leaf" => return .leaf name opt (← nfld j "k")
+  | "dict" =>
+    let mode ← match (← sfld j "mode") with
+      | "dense" => pure DictMode.dense | "sparse" => pure DictMode.sparse
+      | "sparseReq" => pure DictMode.sparseReq | m => throw s!"bad mode {m}"
+    let policy ← match (← sfld j "policy") with
+      | "strict" => pure Policy.strict | "subset" => pure Policy.subset | "duck" => pure Policy.duck
+      | "off" => pure Policy.off | m => throw s!"bad policy {m}"
+    return .dict name opt mode policy (← (← afld j "fields").mapM parseSchema)
+  | "seq" => return .seq name opt (← parseSchema (← fld j "member"))
+  | t => throw s!"bad schema tag {t}"
+
+partial def elemJson : Elem → Json
+  | .leaf v u parts => obj [("v", nativeJson v), ("u", ofChars u), ("parts", ofList ofChars parts)]
+  | .dict ms => obj [("dict", ofList (fun (p : Str × Elem) => Json.arr #[ofChars p.1, elemJson p.2]) ms)]
+  | .seq ms => obj [("seq", ofList elemJson ms)]
+
+/-- adapt table: [[k, native, flag, value, u, parts]...], blank table: [[k, value, u, parts]...];
+    natives are compared through their compressed JSON -/
+def parseEnv (j : Json) : Except String Env := do
+  let adaptT ← (← afld j "adapt").mapM (fun e => do
+    match (← arr e) with
+    | [k, x, f, v, u, ps] =>
+      return ((← nat k), x.compress, (← bool f), (← parseNative v), (← chars u), (← (← arr ps).mapM chars))
+    | _ => throw "bad adapt entry")
+  let bt ← (← afld j "blank").mapM (fun e => do
+    match (← arr e) with
+    | [k, v, u, ps] => return ((← nat k), (← parseNative v), (← chars u), (← (← arr ps).mapM chars))
+    | _ => throw "bad blank entry")
+  let missing : Str := "?missing".toList
+  return {
+    adapt := fun k x =>
+      let key := (nativeJson x).compress
+      match adaptT.find? (fun e => e.1 == k && e.2.1 == key) with
+      | some e => (e.2.2.1, e.2.2.2.1, e.2.2.2.2.1, e.2.2.2.2.2)
+      | none => (false, .junk, missing, [])
+    blankLeaf := fun k =>
+      match bt.find? (fun e => e.1 == k) with
+      | some e => e.2
+      | none => (.junk, missing, []) }
+
+def resultJson (r : Except Raise (Elem × Bool)) : Json :=
+  match r with
+  | .error .keyError => obj [("raise", Json.str "KeyError")]
+  | .error .typeError => obj [("raise", Json.str "TypeError")]
+  | .ok (e, f) => obj [("flag", Json.bool f), ("elem", elemJson e), ("value", nativeJson (value e))]
+
+/-- case: schema, x (native), env -/
+def run (j : Json) : Except String Json := do
+  let s ← parseSchema (← fld j "schema")
+  let env ← parseEnv (← fld j "env")
+  let x ← parseNative (← fld j "x")
+  let r := setNative env s x
+  let again : Json := match r with
+    | .ok (e, _) => resultJson (setNative env s (value e))
+    | _ => Json.null
+  return obj [("first", resultJson r), ("again", again)]
 
 end Flatland.Run.C03
